@@ -968,6 +968,8 @@ class OpsMixin:
             for x in it:
                 acc = self.call(f, [acc, x], {})
             return acc
+        if name in ("copy.copy", "copy.deepcopy"):
+            return self.copy_value(args[0], deep=name.endswith("deepcopy"), memo={})
         if name == "math":
             raise Unsupported("call of module")
         raise Unsupported(f"external call {name}")
@@ -979,6 +981,23 @@ class OpsMixin:
         lo = v.iv.lo - 1 if v.iv.lo != -math.inf else v.iv.lo
         hi = v.iv.hi + 1 if v.iv.hi != math.inf else v.iv.hi
         return SymNum(("round", v.term), IV(lo, hi, False, False), None)
+
+    def copy_value(self, v, deep: bool, memo: dict):
+        if isinstance(v, Obj):
+            if id(v) in memo:
+                return memo[id(v)]
+            o = Obj(v.cls)
+            memo[id(v)] = o
+            for k, x in v.attrs.items():
+                o.attrs[k] = self.copy_value(x, True, memo) if deep else x
+            return o
+        if isinstance(v, list):
+            return [self.copy_value(x, True, memo) for x in v] if deep else list(v)
+        if isinstance(v, dict):
+            return {k: self.copy_value(x, True, memo) for k, x in v.items()} if deep else dict(v)
+        if isinstance(v, set):
+            return set(v)
+        return v
 
     def _real(self, v, fname):
         if isinstance(v, bool) or isinstance(v, int):
